@@ -440,6 +440,28 @@ func c20Transparency(c C20Case, cx *h.Ctx) *h.Failure {
 			}
 		}
 	}
+	// measure options and order-insensitive equality with the empties in place
+	{
+		tf := func(p geom.XY) geom.XY { return geom.XY{X: 2*p.X + 1, Y: 3 * p.Y} }
+		for _, opts := range [][]geom.AreaOption{{geom.WithTransform(tf)}, {geom.SignedArea}, {geom.SignedArea, geom.WithTransform(tf)}} {
+			if a1, a2 := g.Area(opts...), gp.Area(opts...); math.Abs(a1-a2) > 1e-9*(1+math.Abs(a1)) {
+				return diff("Area with options", a1, a2)
+			}
+		}
+		for _, e := range c14Empties {
+			eg := e.ToGeom()
+			if a := eg.Area(geom.WithTransform(tf)) + eg.Area(geom.SignedArea, geom.WithTransform(tf)); a != 0 {
+				return diff("Area with options of an empty geometry with members", 0, a)
+			}
+		}
+		if len(plus.Mem) >= 2 {
+			rot := plus.Clone()
+			rot.Mem = append(append([]gm.G{}, plus.Mem[1:]...), plus.Mem[0])
+			if !geom.ExactEquals(gp, rot.ToGeom(), geom.IgnoreOrder) || !geom.ExactEquals(rot.ToGeom(), gp, geom.IgnoreOrder) || !geom.ExactEquals(gp, gp) {
+				return diff("ExactEquals(IgnoreOrder) of g+ and g+ with its members rotated", true, false)
+			}
+		}
+	}
 	// encoders: the inserted empties leave the text/JSON well formed and every position in place
 	{
 		b1, e1 := g.MarshalJSON()
